@@ -155,30 +155,42 @@ func FuncName(fn *types.Func) string {
 
 // LookupFunc finds a package-level function or method by "Type.method" / "func" in a package.
 func (p *Program) LookupFunc(pkgRel, name string) *types.Func {
+	fn, err := p.lookupFuncByName(pkgRel, name)
+	if err == nil {
+		p.recordAnchor(pkgRel, name, fn)
+		return fn
+	}
+	if alt := p.resolveRenamedAnchor(pkgRel, name); alt != nil {
+		return alt
+	}
+	panic(err)
+}
+
+func (p *Program) lookupFuncByName(pkgRel, name string) (*types.Func, error) {
 	pkg := p.Pkg(pkgRel)
 	if i := strings.Index(name, "."); i >= 0 {
 		tn, mn := name[:i], name[i+1:]
 		obj := pkg.Types.Scope().Lookup(tn)
 		if obj == nil {
-			panic(anchorError(pkgRel + "." + tn))
+			return nil, anchorError(pkgRel + "." + tn)
 		}
 		named, ok := obj.Type().(*types.Named)
 		if !ok {
-			panic(anchorError(pkgRel + "." + tn + " is not a named type"))
+			return nil, anchorError(pkgRel + "." + tn + " is not a named type")
 		}
 		for i := 0; i < named.NumMethods(); i++ {
 			if named.Method(i).Name() == mn {
-				return named.Method(i)
+				return named.Method(i), nil
 			}
 		}
-		panic(anchorError(pkgRel + "." + name))
+		return nil, anchorError(pkgRel + "." + name)
 	}
 	obj := pkg.Types.Scope().Lookup(name)
 	fn, ok := obj.(*types.Func)
 	if !ok {
-		panic(anchorError(pkgRel + "." + name))
+		return nil, anchorError(pkgRel + "." + name)
 	}
-	return fn
+	return fn, nil
 }
 
 // LookupType finds a named type.
